@@ -114,7 +114,7 @@ def gen(tier, seed):
     return tmcommon.gen_rows(tier, seed, kinds=False)
 
 
-SUBCHECKS = [Sub('psf_gridconv', gen, ev_row, chunk=16, floor=1000)]
+SUBCHECKS = [Sub('psf_gridconv', gen, ev_row, chunk=16, floor=1000, envs=24)]
 
 
 def bounds(tier, seed):
